@@ -11,13 +11,6 @@ Fixpoint idx_filter (f : case -> bool) (i : N) (cs : list case) : list N :=
   | c :: t => if f c then i :: idx_filter f (N.succ i) t else idx_filter f (N.succ i) t
   end.
 
-(* compact constructors for the generated case text *)
-Definition P (t d : N) (r : bool) (deps : list ans) (f : fsf) (ex : list eans) (nb rep repok : bool) : op :=
-  Put (mkput t d r deps f ex nb rep repok).
-Definition O (r : res) (d : option N) (nb rep : list N) (dk : option N) (b : option content) (tk : option N) : out :=
-  mkout r d nb rep (mksnap dk b tk).
-Definition E (f : bool) (u : upans) : eans := mkea f u.
-
 Definition mismatches (cs : list case) : list N :=
   idx_filter (fun c => negb (outs_eqb (snd (run (c_cfg c) init (c_ops c))) (c_obs c))) 0%N cs.
 Definition violations (cs : list case) : list N :=
